@@ -46,7 +46,7 @@ def main():
         san += ' -DCAT_UNSOLICITED_CMD_BUFFER_SIZE=%s' % mm.group(1)
 
     def run_demo(tag):
-        r = sh('gcc -g %s -I%s/src %s %s/src/cat.c -o %s/demo_%s && %s/demo_%s' % (san, scratch, demo, scratch, scratch, tag, scratch, tag), timeout=300)
+        r = sh('gcc -g -pthread %s -I%s/src %s %s/src/cat.c -o %s/demo_%s && %s/demo_%s' % (san, scratch, demo, scratch, scratch, tag, scratch, tag), timeout=300)
         return r.returncode
     res['steps']['demo_on_original'] = run_demo('orig')
     r = sh('patch -p1 -d %s < %s' % (scratch, os.path.join(sd, 'patch.diff')))
